@@ -13,6 +13,8 @@ mod real;
 mod unit;
 
 pub(crate) use formatting_style::FormattingStyle;
+#[cfg(feature = "verif-hooks")]
+pub(crate) use {bigrat::verif_hooks as hooks_bigrat, biguint::verif_hooks as hooks_biguint};
 
 use crate::error::FendError;
 
